@@ -11,7 +11,7 @@ Units: `<cls>_<ova|ovo>` (return_grad=False) : Arr α                  — the s
 for cls in kl, tv, hellinger, chi2, mmd; parameters, in this FIXED order: `(epsilon : α) (y_pred affinity : Arr α)`
 (`self.epsilon`, then the arguments of `evaluate`; the f-divergences never read `affinity`).
 All 20 units are translated (NOT_TRANSLATED below is empty; an entry there would leave a pair of units to the differential
-check only).  WassersteinGEMINI (Python loops, `ot.emd2`) is outside the scope of this translator.
+check only).  WassersteinGEMINI (Python loops, `ot.emd2`) is translated by `wass.py`, which builds on this module.
 
 Modelling conventions (see also Np2.lean):
   * `y_pred` and `affinity` are 2-D arrays; the number of dimensions of every other value follows statically.  A 0-d
